@@ -31,7 +31,7 @@ structure St where
   nodes : Array FlatNode := #[]
   vocab : Nat := 0
   cache : CState Nat Nat (Nat × Nat × Bool) := { rows := [], ls := 0, pending := false, cache := none }
-  rb : RState Nat := { tokens := [], llmBytes := [], pBytes := [], byteTok := [], lexStack := [0], stopOk := false }
+  rb : RState Nat := { tokens := [], llmBytes := [], pBytes := [], byteTok := [], lexStack := [0], stopOk := false, bareEos := false }
   rbVocab : List (Nat × List UInt8) := []
   rbEos : List Nat := []
   rxs : List (Nat × LlgVerif.Dfa) := []
@@ -164,7 +164,7 @@ def handleRb (st : St) (args : List String) : St × String :=
   match args with
   | ["init", eos] =>
     match parseNatList? eos with
-    | some eos => ({ st with rb := { tokens := [], llmBytes := [], pBytes := [], byteTok := [], lexStack := [0], stopOk := false }, rbVocab := [], rbEos := eos }, "ok")
+    | some eos => ({ st with rb := { tokens := [], llmBytes := [], pBytes := [], byteTok := [], lexStack := [0], stopOk := false, bareEos := false }, rbVocab := [], rbEos := eos }, "ok")
     | none => (st, "bad-op")
   | ["tok", id, bs] =>
     match parseNat? id, parseHex? bs with
